@@ -71,6 +71,17 @@ def loadSimple (hinted bc : Bool) (scale : Int) (m : GM) (pts : List Vec) : Opti
     (pts.map fun q => Vec.mk (Fixed.mul q.x scale) (Fixed.mul q.y scale),
      phRound hinted bc (Fixed.mul p0 scale), phRound hinted bc (Fixed.mul p1 scale))
 
+/-- the four phantom points as the interpreter receives them from `load_simple` / `load_composite` when the
+glyph has instructions: FIRST `original_scaled.copy_from_slice(scaled)` (the original positions keep the
+unrounded scaled phantom points), THEN `round_phantom_points(&mut scaled[phantom_start..])` (pp1.x, pp2.x,
+pp3.y, pp4.y of the current positions): `(original, current)`. -/
+def hintPhantom (pp : List Vec) : List Vec × List Vec :=
+  let original := pp
+  let current := match pp with
+    | [p1, p2, p3, p4] => [⟨rnd p1.x, p1.y⟩, ⟨rnd p2.x, p2.y⟩, ⟨p3.x, rnd p3.y⟩, ⟨p4.x, rnd p4.y⟩]
+    | _ => pp
+  (original, current)
+
 /-- the 2x2 transform of `load_composite` on one scaled point: `scale_component(x) = bits * 4`. -/
 def xform (c : Comp) (q : Vec) : Vec :=
   let xx := c.xx * 4
